@@ -236,6 +236,10 @@ def classic_2fma(a: fp.Real, b: fp.Real, c: fp.Real):
     a1, a2 = classic_2sum(c, u2)
     b1, b2 = classic_2sum(u1, a1)
     g = (b1 - r1) + b2
-    r2, r3 = fast_2sum(g, a2)
+    # `g` has the exponent of `a2` at least, but not always its magnitude
+    if abs(g) >= abs(a2):
+        r2, r3 = fast_2sum(g, a2)
+    else:
+        r2, r3 = fast_2sum(a2, g)
 
     return r1, r2, r3
